@@ -590,6 +590,11 @@ class Run2(PL.ImplRun):
             dc = self.ctimers.get(ev[1])
             if dc is not None and dc in self.clock.calls:
                 self.clock.fire(dc)
+                # monitor: the client's time-out fired => the broker request it guards is over (cancelled)
+                for rid, cid in self.req_ctimer.items():
+                    br = self.breqs.get(rid)
+                    if cid == ev[1] and br is not None and not br.done:
+                        self.problems.append("client time-out of request %d fired but the request is still pending" % rid)
             self.close_step()
         elif op == "move":        # the leadership of a partition moves (the client is not told)
             _op, t, p, node = ev
@@ -752,11 +757,18 @@ def apply2(run, ev):
         br = run.breqs.get(ev[1])
         # time-out timers are created in request order, one per request to a known broker (not for bootstrap)
         cands = [cid for cid, dc in sorted(run.ctimers.items()) if dc in run.clock.calls]
-        if br is None or br.done or not cands or br.node < 0:
+        if br is None or br.done or br.node < 0:
+            # nothing to time out (answered already, or a bootstrap request, which has no per-request timer)
             ev = ("bfail", ev[1], PL.K_CONNLOST)
         else:
             cid = run.req_ctimer.get(ev[1])
-            ev = ("ctimer", cid) if cid in cands else ("bfail", ev[1], PL.K_CONNLOST)
+            if cid in cands:
+                ev = ("ctimer", cid)
+            else:
+                # strict: a pending request to a known broker must still have its time-out armed
+                run.problems.append("request %d to broker %d is pending but its client time-out is no longer armed "
+                                    "(a silent broker would leave it pending for ever)" % (ev[1], br.node))
+                ev = ("bfail", ev[1], PL.K_CONNLOST)
     run.pyevents.append(ev)
     run.apply(ev)
     return ev
